@@ -8,8 +8,8 @@ Envelopes (all with relative slack 2^-40, far above binary64's 2^-53 and libm's 
 * `TruncNear p t`   : `t` is the truncation of a double within 2^-40 of the exact product `p ≥ 0`
 * `MaxXNear a m`    : `m = trunc(pow(2^62 a, 1.5))` with `pow` within 2^-40 (relative, on the square)
 * `PowThreadsNear`  : `m = trunc(pow(z, 1/3.7))` within a factor 2 on the 37th power
-* the clamps `1 ≤ alpha ≤ iroot<6>(x)` that `in_between` enforces whatever the floats were (util.cpp 270-272, 315-318,
-  388-396), `alpha_z ≤ max(1, x16 / alpha_y)`.
+* the clamps `1 ≤ alpha ≤ iroot<6>(x)` that `in_between` enforces whatever the floats were (util.cpp 274-277, 317-320,
+  398-405), `alpha_z ≤ max(1, x16 / alpha_y)`.
 -/
 import PcModel.ParamsL2
 namespace Pc
@@ -93,7 +93,7 @@ def DrRange (x : Nat) (threads : Int) (o : DOut) : Prop :=
 instance (x : Nat) (threads : Int) (o : DOut) : Decidable (DrRange x threads o) := by
   unfold DrRange; infer_instance
 
-/-- named envelope of `maxx_default`: the default `alpha_y` (util.cpp 342-389: the cubic in `log x`, halved, truncated to
+/-- named envelope of `maxx_default`: the default `alpha_y` (util.cpp 347-396: the cubic in `log x`, halved, truncated to
     3 decimals) is at least 110 on `(2^93 − 2^54, 10^31]` (real values: 118.5 at 2^93, 195.6 at 10^31). -/
 def DefaultAlphaYAtLeast110 (x : Nat) (ay : Rat) : Prop := 2 ^ 93 - 2 ^ 54 < x → 110 ≤ ay
 
